@@ -259,6 +259,115 @@ VARIANTS = [
     (3, "add", 0, "# comment"),
 ]
 
+# document templates for the cross-field rules (MC_Lex layer xdoc): lines, slots (line, field, alternatives with
+# the valid primary first, context flag), arrival orders, number of non-context slots that may deviate at once.
+# Which documents violate a rule is decided by Lex!DocVerdict, not here.
+SEQ12, SEQ8 = "ACGTACGTACGT", "ACGTACGT"
+_A_BEG, _A_END = ["4", "4$", "12$", "13", "0"], ["7", "12$", "11$", "3", "12", "13$", "7$"]
+_B_BEG, _B_END = ["0", "3$", "8$", "6"], ["5", "5$", "8$", "8", "9$", "9"]
+TEMPLATES = [
+    # `$` only on the last position / begin <= end, E line, sid1 = a (12), sid2 = b (8); either sequence given or `*`
+    dict(ver="gfa2", dia="standard", maxdev=2,
+         lines=["S\ta\t12\t" + SEQ12, "S\tb\t8\t" + SEQ8, "E\te1\ta+\tb+\t4\t7\t0\t5\t*"],
+         slots=[(1, 4, [SEQ12, "*"], 1), (2, 4, [SEQ8, "*"], 1),
+                (3, 5, _A_BEG, 0), (3, 6, _A_END, 0), (3, 7, _B_BEG, 0), (3, 8, _B_END, 0)],
+         orders=[[1, 2, 3], [3, 1, 2], [1, 3, 2], [2, 3, 1]]),
+    # the same with the segments exchanged (sid1 = b reversed, sid2 = a) and an anonymous edge
+    dict(ver="gfa2", dia="standard", maxdev=2,
+         lines=["S\ta\t12\t" + SEQ12, "S\tb\t8\t" + SEQ8, "E\t*\tb-\ta+\t0\t5\t4\t7\t*"],
+         slots=[(1, 4, [SEQ12, "*"], 1), (2, 4, [SEQ8, "*"], 1),
+                (3, 5, _B_BEG, 0), (3, 6, _B_END, 0), (3, 7, _A_BEG, 0), (3, 8, _A_END, 0)],
+         orders=[[1, 2, 3], [3, 1, 2], [1, 3, 2], [2, 3, 1]]),
+    # F line: s_beg / s_end on the segment, f_beg / f_end on the external sequence
+    dict(ver="gfa2", dia="standard", maxdev=2,
+         lines=["S\ta\t12\t" + SEQ12, "F\ta\tx+\t4\t7\t0\t2\t*"],
+         slots=[(1, 4, [SEQ12, "*"], 1), (2, 4, _A_BEG, 0), (2, 5, _A_END, 0), (2, 6, ["0", "3"], 0),
+                (2, 7, ["2", "2$"], 0)],
+         orders=[[1, 2], [2, 1]]),
+    # LN equals the sequence length
+    dict(ver="gfa1", dia="standard", maxdev=2,
+         lines=["S\tA\tACGT\tLN:i:4", "S\tB\t*\tLN:i:6", "L\tA\t+\tB\t+\t*"],
+         slots=[(1, 3, ["ACGT", "*", "ACGTA"], 0),
+                (1, 4, ["LN:i:4", "LN:i:5", "LN:i:3", "LN:i:+4", "LN:i:04", "LN:i:0", "LN:i:-4"], 0),
+                (2, 4, ["LN:i:6", "LN:i:0", "LN:i:-1"], 0)],
+         orders=[[1, 2, 3], [3, 1, 2], [2, 3, 1]]),
+    # number of overlaps of a path
+    dict(ver="gfa1", dia="standard", maxdev=2,
+         lines=["S\tA\t*", "S\tB\t*", "S\tC\t*", "L\tA\t+\tB\t+\t1M", "L\tB\t+\tC\t+\t1M",
+                "P\tp\tA+,B+,C+\t1M,1M"],
+         slots=[(6, 3, ["A+,B+,C+", "A+,B+", "A+"], 0),
+                (6, 4, ["1M,1M", "*", "1M", "1M,1M,1M", "*,*", "1M,1M,1M,1M"], 0)],
+         orders=[[1, 2, 3, 4, 5, 6], [6, 1, 2, 3, 4, 5], [1, 2, 3, 6, 4, 5], [4, 5, 6, 1, 2, 3]]),
+    # referenced identifiers defined, GFA1
+    dict(ver="gfa1", dia="standard", maxdev=2,
+         lines=["S\tA\t*", "S\tB\t*", "L\tA\t+\tB\t+\t*", "C\tA\t+\tB\t-\t0\t*", "P\tp\tA+,B+\t*"],
+         slots=[(3, 2, ["A", "Z"], 0), (3, 4, ["B", "Z"], 0), (4, 2, ["A", "Z"], 0), (4, 4, ["B", "Z"], 0),
+                (5, 3, ["A+,B+", "A+,Z+", "Z+", "Z+,A+"], 0)],
+         orders=[[1, 2, 3, 4, 5], [5, 4, 3, 2, 1], [3, 4, 5, 1, 2], [1, 3, 2, 4, 5]]),
+    # referenced identifiers defined, GFA2 (segments of E / G / F, items of O / U)
+    dict(ver="gfa2", dia="standard", maxdev=1,
+         lines=["S\ta\t4\tACGT", "S\tb\t4\tACGT", "E\te1\ta+\tb+\t0\t2\t0\t2\t*", "G\tg\ta+\tb-\t10\t5",
+                "F\ta\tx+\t0\t2\t0\t2\t*", "O\to\ta+ e1+ b+", "U\tu\ta e1 g o"],
+         slots=[(3, 3, ["a+", "z+"], 0), (3, 4, ["b+", "z-"], 0), (4, 3, ["a+", "z+"], 0), (4, 4, ["b-", "z+"], 0),
+                (5, 2, ["a", "z"], 0), (6, 3, ["a+ e1+ b+", "a+ z+", "z-", "a+ e1+ z+"], 0),
+                (7, 3, ["a e1 g o", "a z", "z", "o z g"], 0)],
+         orders=[[1, 2, 3, 4, 5, 6, 7], [7, 6, 5, 4, 3, 2, 1], [3, 4, 5, 6, 7, 1, 2], [7, 6, 1, 3, 2, 4, 5]]),
+    # rGFA restrictions
+    dict(ver="gfa1", dia="rgfa", maxdev=2,
+         lines=["S\ts1\tACG\tSN:Z:chr1\tSO:i:0\tSR:i:0", "S\ts2\t*\tSN:Z:chr1\tSO:i:3\tSR:i:0",
+                "L\ts1\t+\ts2\t+\t0M\tSR:i:0"],
+         slots=[(1, 4, ["SN:Z:chr1", "SN:i:1", "sn:Z:x"], 0), (1, 5, ["SO:i:0", "SO:Z:0", "so:i:0"], 0),
+                (1, 6, ["SR:i:0", "SR:f:0", "sr:i:0"], 0), (3, 4, ["s2", "zz"], 0),
+                (3, 6, ["0M", "1M", "*", "0M1M"], 0), (3, 7, ["SR:i:0", "SR:Z:x", "L1:i:1", "L1:Z:x", "L2:f:1"], 0)],
+         orders=[[1, 2, 3], [3, 2, 1], [2, 3, 1]]),
+]
+
+
+def _hub(defined, referrers, sizes, rotations, last=False):
+    out = []
+    n = len(referrers)
+    for k in sizes:
+        for r in rotations:
+            ref = (referrers[r % n:] + referrers[:r % n])[:k]
+            out.append("\n".join(ref + defined if last else defined + ref))
+    return out
+
+
+def hub_texts():
+    """Documents in which ONE undefined identifier is referred to by few / exactly 10 / more than 10 lines of mixed
+    types (named and unnamed), in every rotation of the referrers, so that each kind of line is among the first ten
+    and among the surplus: every message-building path of Gfa.validate() is reached with few and many referrers."""
+    seg1 = ["S\tA\t*", "S\tB\t*", "S\tC\t*"]
+    ref1 = ["L\tA\t+\tZ\t+\t*", "L\tA\t-\tZ\t+\t*\tID:Z:l1", "L\tB\t+\tZ\t-\t*", "L\tZ\t+\tB\t-\t*\tID:Z:l2",
+            "L\tC\t+\tZ\t+\t*", "L\tZ\t-\tC\t+\t*", "C\tA\t+\tZ\t+\t0\t*", "C\tZ\t+\tB\t+\t0\t*\tID:Z:c1",
+            "C\tC\t-\tZ\t-\t0\t*", "P\tp1\tA+,Z+\t*", "P\tp2\tZ+\t*", "P\tp3\tB+,Z-\t*", "P\tp4\tC+,Z+\t*"]
+    seg2 = ["S\ta\t4\t*", "S\tb\t4\t*"]
+    ref2 = ["E\t*\ta+\tz+\t0\t2\t0\t2\t*", "E\te2\tb+\tz-\t0\t2\t0\t2\t*", "E\t*\tz+\ta-\t0\t2\t0\t2\t*",
+            "E\te4\tz-\tb+\t0\t2\t0\t2\t*", "G\t*\ta+\tz+\t10\t5", "G\tg2\tz-\tb+\t10\t*", "G\t*\tb-\tz-\t3\t1",
+            "F\tz\tx+\t0\t2\t0\t2\t*", "F\tz\ty-\t0\t2\t0\t2\t*", "O\to1\ta+ z+", "O\t*\tz- b+", "U\tu1\ta z", "U\t*\tz b"]
+    item = ["U\tu1\ta q", "U\t*\tq", "U\tu3\tq b", "U\t*\tb q a", "O\to1\ta+ q+", "O\t*\tq-", "O\to3\tq+ b-",
+            "O\t*\tb+ q+", "U\tu5\tq u1", "O\to5\tq+ a+", "U\t*\tq a b", "O\t*\ta- q-", "U\tu7\ta b q"]
+    paths = ["P\tp%d\tA+,B+\t*" % i for i in range(1, 13)]
+    plinks = ["P\tq%d\tA+,B+,C-\t*" % i for i in range(1, 13)]
+    rg = ["S\ts%d\t*\tSN:Z:c\tSO:i:%d\tSR:i:0" % (i, i) for i in range(1, 13)]
+    out = []
+    for seg, ref in ((seg1, ref1), (seg2, ref2), (seg2, item)):
+        out += _hub(seg, ref, (11, 12, 13), range(13))
+        out += _hub(seg, ref, (13,), range(0, 13, 3), last=True)
+        out += _hub(seg, ref, (1, 3, 10), (0, 4, 8))
+    out += _hub(seg1[:2], paths, (2, 10, 11, 12), (0,))                     # a missing link required by few / many paths
+    out += _hub(seg1 + ["L\tA\t+\tB\t+\t*"], plinks, (2, 11, 12), (0,))     # one of two links missing
+    out += _hub(seg1[:2] + ["L\tA\t+\tB\t+\t*"], paths, (12,), (0,))          # nothing missing: must load
+    out += ["\n".join(rg[:k] + x) for k in (2, 12) for x in (
+        ["L\ts1\t+\ts2\t+\t0M"], ["L\ts1\t+\ts2\t+\t1M"], ["L\ts1\t+\tzz\t+\t0M"], ["H\tVN:Z:1.0"], ["S\tx\t*"],
+        ["S\tx\t*\tSN:i:1\tSO:i:0\tSR:i:0"], ["P\tp\ts1+,s2+\t*"], ["C\ts1\t+\ts2\t+\t0\t*"])]
+    # `$` on a non-last position of a segment that many edges / fragments refer to
+    e12 = ["E\t*\ta+\tb+\t0\t2\t0\t%d\t*" % i for i in range(1, 4)] * 4
+    out += ["\n".join(["S\ta\t4\tACGT", "S\tb\t4\tACGT"] + e12[:k] + [bad]) for k in (1, 12) for bad in (
+        "E\t*\ta+\tb+\t0\t3$\t0\t2\t*", "E\tx\tb+\ta-\t0\t2\t1\t3$\t*", "F\ta\tx+\t0\t3$\t0\t2\t*")]
+    return out
+
+
 # whole documents / odd texts offered as they are (C07)
 TEXTS = ["", "\n", " ", "\t", "\n\n", "S\tA\t*\n", "S\tA\t*\n\nS\tB\t*", "S\tA\t*\r\n", "S\tA\t*\r\nS\tB\t*\r\n",
          "H\txx:i:1\nH\txx:i:2\nH\txx:i:3", "H\txx:i:1\nH\txx:i:2", "P\tp\tA+\t*", "P\tp\tA+,B+\t*",
@@ -363,7 +472,17 @@ def build_catalog(tier, layers, shorter=0, only=None):
             for v in x:
                 walk(v)
     lreps = _syms(LREPS_QUICK if q else LREPS_THOROUGH)
-    data = dict(ctx=ctx, alph=alph, cat=cat, reps=reps, recs=recs, lines=lines, lreps=lreps,
+    templates = []
+    for t in TEMPLATES:
+        tl = [ln.split("\t") for ln in t["lines"]]
+        for li, fi, alts, cx in t["slots"]:
+            if tl[li - 1][fi - 1] != alts[0]:
+                raise MachineryError("template slot %r: primary %r is not the text of the line" % ((li, fi), alts[0]))
+        templates.append(dict(ver=t["ver"], dia=t["dia"], maxdev=t["maxdev"], orders=t["orders"],
+                              lines=[[_chars(f) for f in ln] for ln in tl],
+                              slots=[dict(line=li, field=fi, alts=[_chars(a) for a in alts], ctx=cx)
+                                     for li, fi, alts, cx in t["slots"]]))
+    data = dict(ctx=ctx, alph=alph, cat=cat, reps=reps, recs=recs, lines=lines, lreps=lreps, templates=templates,
                 lalph=dict(syms=[_chars(s) for s in _syms(lsy)], n=lnq if q else lnt), docs=docs, variants=variants,
                 layers=list(layers))
     walk(data)
@@ -563,6 +682,18 @@ class Runner:
                         r.append(self.call(g.validate)[0])
                         r.append(self.written(g))
                     rows.append(r); lv.append(k); cfg.append("add_line/%s/%s" % (ver, dia))
+                    if "\n" in text:       # a document: line by line, then the explicit validation
+                        st, g = self.call(G.Gfa, vlevel=k, version=ver, dialect=dia)
+                        r = [st]
+                        if st == "ok":
+                            for ln in text.split("\n"):
+                                r.append(self.call(g.add_line, ln)[0])
+                                if r[-1] != "ok":
+                                    break
+                            r.append(self.call(g.process_line_queue)[0])
+                            r.append(self.call(g.validate)[0])
+                            r.append(self.written(g))
+                        rows.append(r); lv.append(k); cfg.append("add_line each/%s/%s" % (ver, dia))
                     if have_file:
                         st, g = self.call(G.Gfa.from_file, self.path, vlevel=k, version=ver, dialect=dia)
                         r = [st]
@@ -786,8 +917,9 @@ def api_cases(first_id):
 
 
 def text_cases(first_id):
+    texts = list(dict.fromkeys(TEXTS + hub_texts()))
     return [dict(id=first_id + i, kind="t", ctx=0, ver="any", dia="standard", s=t, lines=[], mc="either")
-            for i, t in enumerate(TEXTS)]
+            for i, t in enumerate(texts)]
 
 
 def _violations(out, prop, cases, rejects):
@@ -875,6 +1007,10 @@ def _coverage(out, tier, cov, layers, shorter):
         line_text_alphabet=dict(symbols=_syms(LALPH[0]), max_symbols=LALPH[1] if q else LALPH[2]),
         line_mutation_representatives=_syms(LREPS_QUICK if q else LREPS_THOROUGH),
         documents=len(DOCS), document_variants=len(VARIANTS),
+        document_templates=[dict(lines=t["lines"], slots=[dict(line=a, field=b, alternatives=c, context=bool(d))
+                                                          for a, b, c, d in t["slots"]],
+                                 orders=t["orders"], max_deviating=t["maxdev"], dialect=t["dia"]) for t in TEMPLATES],
+        hub_documents=len(hub_texts()),
         exhaustive=True,
         exhaustive_scope="every string up to the stated number of symbols over each stated alphabet, every single-point "
                          "mutation of the catalogue, every line / document variant of the stated tables; not the unbounded languages",
@@ -923,7 +1059,7 @@ def _run(out, tier, prop, layers, levels, extra=None):
 
 
 def check_c04(out, tier, seed):
-    _run(out, tier, "C04", ("enum", "mut", "line", "doc"), (1, 2, 3))
+    _run(out, tier, "C04", ("enum", "mut", "line", "doc", "xdoc"), (1, 2, 3))
     if tier != "quick":
         selftest()
 
@@ -932,7 +1068,7 @@ def check_c07(out, tier, seed):
     def extra(first):
         t = text_cases(first)
         return t + api_cases(first + len(t))
-    layers = ("enum", "mut", "line", "doc", "lmut", "lenum")
+    layers = ("enum", "mut", "line", "doc", "xdoc", "lmut", "lenum")
     _run(out, tier, "C07", layers, (0, 1, 2, 3), extra)
     if tier != "quick":
         selftest()
